@@ -245,7 +245,7 @@ def run(ctx, rundir, env=None, preload=None, feed_chunk=0, drain_chunk=0, timeou
         cmd = [vcommon.tool(v, "gensquashfs")] + ctx["args"] + ["out.sqfs" if case.get("relout") else out]
     elif kind == "t2s":
         out = os.path.join(rundir, "out.sqfs")
-        cmd = [vcommon.tool(v, "tar2sqfs"), "-q"] + _c(o) + ["-b", str(o["B"]), "-j", str(o["j"])] + (["-Q", str(o["Q"])] if o.get("Q") else []) + (["-T"] if o["T"] else []) + (["-e"] if o["e"] else []) + (["-f"] if ctx.get("force") else []) + ["out.sqfs" if case.get("relout") else out]
+        cmd = [vcommon.tool(v, "tar2sqfs"), "-q"] + _c(o) + ["-b", str(o["B"]), "-j", str(o["j"])] + (["-Q", str(o["Q"])] if o.get("Q") else []) + (["-T"] if o["T"] else []) + (["-e"] if o["e"] else []) + (["-f"] if ctx.get("force") else []) + ctx.get("t2s_extra", []) + ["out.sqfs" if case.get("relout") else out]
         stdin = ctx["stdin"]
     elif kind == "s2t":
         cmd = [vcommon.tool(v, "sqfs2tar")] + (["-c", case["s2t_codec"]] if case.get("s2t_codec") else []) + [ctx["img"]]
